@@ -321,6 +321,7 @@ def rule_split_and_placement(rep, fx):
     # R05.13 every DATAFRAG built goes out (mutation triage: deleting the push onto the send list survived every check and the suite)
     from rules import builtsent
     builtsent.run_rule(rep, fx, 'R05.13')
+    builtsent.run_wire(rep, fx, 'R05.17')
     rule_bytes_slice(rep, fx, 'R05.14')
     # ---------------------------------------------------------------- R05.7 counts
     nfb = fx.find('rtps::writer::Writer::num_frags_and_frag_size')
